@@ -236,7 +236,258 @@ Proof.
 Qed.
 
 (* ================================================================================================ *)
-(* C. the tables, computed from the generated strings                                                 *)
+(* B2. the normal form keeps the language                                                             *)
+
+Lemma re_iff_cat : forall a a' b b',
+  (forall w, re_matches a w <-> re_matches a' w) -> (forall w, re_matches b w <-> re_matches b' w) ->
+  forall w, re_matches (RCat a b) w <-> re_matches (RCat a' b') w.
+Proof.
+  intros a a' b b' Ha Hb w. split; intro H; apply re_cat_inv in H;
+    destruct H as [u [v [-> [Hu Hv]]]]; constructor; first [apply Ha | apply Hb]; assumption.
+Qed.
+
+Lemma re_iff_alt : forall a a' b b',
+  (forall w, re_matches a w <-> re_matches a' w) -> (forall w, re_matches b w <-> re_matches b' w) ->
+  forall w, re_matches (RAlt a b) w <-> re_matches (RAlt a' b') w.
+Proof.
+  intros a a' b b' Ha Hb w. split; intro H; apply re_alt_inv in H; destruct H as [H|H];
+    first [apply MAltL; apply Ha; assumption | apply MAltR; apply Hb; assumption].
+Qed.
+
+Lemma re_star_mono : forall a a', (forall w, re_matches a w -> re_matches a' w) ->
+  forall w, re_matches (RStar a) w -> re_matches (RStar a') w.
+Proof.
+  intros a a' Ha w H. remember (RStar a) as s eqn:Es. induction H; try discriminate.
+  - constructor.
+  - inversion Es; subst. apply MStarS; [apply Ha; assumption | apply IHre_matches2; reflexivity].
+Qed.
+
+Lemma re_iff_star : forall a a', (forall w, re_matches a w <-> re_matches a' w) ->
+  forall w, re_matches (RStar a) w <-> re_matches (RStar a') w.
+Proof.
+  intros a a' Ha w. split; apply re_star_mono; intros u Hu; apply Ha; exact Hu.
+Qed.
+
+Lemma re_plus_cat_star : forall a w, re_matches (RPlus a) w <-> re_matches (RCat a (RStar a)) w.
+Proof.
+  intros a w. split; intro H.
+  - apply re_plus_inv in H. destruct H as [u [v [-> [Hu Hv]]]]. constructor; assumption.
+  - apply re_cat_inv in H. destruct H as [u [v [-> [Hu Hv]]]]. constructor; assumption.
+Qed.
+
+Lemma re_cat_eps_l : forall b w, re_matches (RCat REps b) w <-> re_matches b w.
+Proof.
+  intros b w. split; intro H.
+  - apply re_cat_inv in H. destruct H as [u [v [-> [Hu Hv]]]]. apply re_eps_inv in Hu. subst. exact Hv.
+  - change w with ([] ++ w). constructor; [constructor | exact H].
+Qed.
+
+Lemma re_cat_eps_r : forall a w, re_matches (RCat a REps) w <-> re_matches a w.
+Proof.
+  intros a w. split; intro H.
+  - apply re_cat_inv in H. destruct H as [u [v [-> [Hu Hv]]]]. apply re_eps_inv in Hv. subst.
+    rewrite app_nil_r. exact Hu.
+  - rewrite <- (app_nil_r w). constructor; [exact H | constructor].
+Qed.
+
+Lemma re_cat_assoc : forall a b c w,
+  re_matches (RCat (RCat a b) c) w <-> re_matches (RCat a (RCat b c)) w.
+Proof.
+  intros a b c w. split; intro H.
+  - apply re_cat_inv in H. destruct H as [uv [x [-> [Huv Hx]]]].
+    apply re_cat_inv in Huv. destruct Huv as [u [v [-> [Hu Hv]]]].
+    rewrite <- app_assoc. constructor; [exact Hu|]. constructor; assumption.
+  - apply re_cat_inv in H. destruct H as [u [vx [-> [Hu Hvx]]]].
+    apply re_cat_inv in Hvx. destruct Hvx as [v [x [-> [Hv Hx]]]].
+    rewrite app_assoc. constructor; [|exact Hx]. constructor; assumption.
+Qed.
+
+Lemma cat_app_sound : forall a b w, re_matches (cat_app a b) w <-> re_matches (RCat a b) w.
+Proof.
+  induction a; intros b w; cbn [cat_app];
+    try (destruct b; first [reflexivity | symmetry; apply re_cat_eps_r]).
+  - symmetry. apply re_cat_eps_l.
+  - rewrite IHa1. rewrite re_cat_assoc. apply re_iff_cat; [reflexivity|]. intro u. apply IHa2.
+Qed.
+
+(* classes *)
+Lemma in_ranges_cons : forall c r rs,
+  in_ranges c (r :: rs) = in_range (fst r) (snd r) c || in_ranges c rs.
+Proof. reflexivity. Qed.
+
+Lemma in_ranges_insert : forall c r rs,
+  in_ranges c (insert_range r rs) = in_range (fst r) (snd r) c || in_ranges c rs.
+Proof.
+  intros c r. induction rs as [|r' t IH]; cbn [insert_range].
+  - reflexivity.
+  - destruct (fst r <=? fst r'); [reflexivity|].
+    rewrite !in_ranges_cons, IH, !orb_assoc.
+    rewrite (orb_comm (in_range (fst r') (snd r') c)). reflexivity.
+Qed.
+
+Lemma in_ranges_sort : forall c rs, in_ranges c (sort_ranges rs) = in_ranges c rs.
+Proof.
+  intros c. induction rs as [|r t IH]; [reflexivity|].
+  unfold sort_ranges in *. cbn [fold_right]. rewrite in_ranges_insert, in_ranges_cons, IH. reflexivity.
+Qed.
+
+Lemma in_ranges_merge_from : forall c rs lo hi,
+  in_ranges c (merge_from lo hi rs) = in_range lo hi c || in_ranges c rs.
+Proof.
+  intros c. induction rs as [|[lo2 hi2] t IH]; intros lo hi; cbn [merge_from].
+  - reflexivity.
+  - destruct ((lo <=? hi) && (lo2 <=? hi2) && (lo2 <=? hi + 1) && (lo <=? hi2 + 1)) eqn:M.
+    + rewrite IH, in_ranges_cons. cbn [fst snd]. rewrite orb_assoc. f_equal.
+      unfold in_range. lia.
+    + rewrite !in_ranges_cons, IH. reflexivity.
+Qed.
+
+Lemma in_ranges_merge : forall c rs, in_ranges c (merge_ranges rs) = in_ranges c rs.
+Proof.
+  intros c rs. destruct rs as [|[lo hi] t]; [reflexivity|].
+  unfold merge_ranges. rewrite in_ranges_merge_from. reflexivity.
+Qed.
+
+Lemma items_split : forall c items,
+  existsb (citem_in c) items = in_ranges c (ranges_of items) || (has_nd items && is_unicode_digit c).
+Proof.
+  intros c. induction items as [|i t IH]; [reflexivity|].
+  cbn [existsb ranges_of has_nd]. rewrite IH. destruct i as [lo hi|]; cbn [citem_in].
+  - destruct (lo <=? hi) eqn:L.
+    + rewrite in_ranges_cons. cbn [fst snd]. rewrite orb_assoc. reflexivity.
+    + replace (in_range lo hi c) with false; [reflexivity|]. unfold in_range. lia.
+  - cbn [andb]. destruct (is_unicode_digit c), (in_ranges c (ranges_of t)), (has_nd t); reflexivity.
+Qed.
+
+Lemma existsb_ranges : forall c rs,
+  existsb (citem_in c) (map (fun r => CRange (fst r) (snd r)) rs) = in_ranges c rs.
+Proof. intros c. induction rs as [|r t IH]; [reflexivity|]. cbn [map existsb citem_in]. rewrite IH. reflexivity. Qed.
+
+Lemma norm_items_sound : forall c items,
+  existsb (citem_in c) (norm_items items) = existsb (citem_in c) items.
+Proof.
+  intros c items. unfold norm_items. rewrite existsb_app, existsb_ranges, in_ranges_merge, in_ranges_sort.
+  rewrite (items_split c items). f_equal.
+  destruct (has_nd items); cbn [existsb citem_in andb]; [apply orb_false_r | reflexivity].
+Qed.
+
+Lemma class_in_norm : forall neg items c, class_in neg (norm_items items) c = class_in neg items c.
+Proof. intros. unfold class_in. rewrite norm_items_sound. reflexivity. Qed.
+
+Lemma re_class_iff : forall neg items w,
+  re_matches (RClass neg items) w <-> exists c, w = [c] /\ class_in neg items c = true.
+Proof.
+  intros. split; [apply re_class_inv|]. intros [c [-> H]]. constructor. exact H.
+Qed.
+
+Lemma class_norm_sound : forall neg items w,
+  re_matches (RClass neg (norm_items items)) w <-> re_matches (RClass neg items) w.
+Proof.
+  intros. rewrite !re_class_iff. split; intros [c [E H]]; exists c; (split; [exact E|]).
+  - rewrite <- class_in_norm. exact H.
+  - rewrite class_in_norm. exact H.
+Qed.
+
+Lemma mk_alt_sound : forall a b w, re_matches (mk_alt a b) w <-> re_matches (RAlt a b) w.
+Proof.
+  intros a b w. unfold mk_alt.
+  destruct a as [| |[] ia| | | |]; try reflexivity.
+  destruct b as [| |[] ib| | | |]; try reflexivity.
+  rewrite class_norm_sound. split; intro H.
+  - apply re_class_inv in H. destruct H as [c [-> H]]. unfold class_in in H.
+    rewrite xorb_false_l, existsb_app in H. apply orb_true_iff in H. destruct H as [H|H].
+    + apply MAltL. constructor. unfold class_in. rewrite xorb_false_l. exact H.
+    + apply MAltR. constructor. unfold class_in. rewrite xorb_false_l. exact H.
+  - apply re_alt_inv in H. destruct H as [H|H]; apply re_class_inv in H; destruct H as [c [-> H]];
+      constructor; unfold class_in in *; rewrite xorb_false_l in *; rewrite existsb_app, H;
+      [reflexivity | apply orb_true_r].
+Qed.
+
+Theorem norm_sound : forall e w, re_matches (norm e) w <-> re_matches e w.
+Proof.
+  induction e; intro w; cbn [norm].
+  - reflexivity.
+  - split; intro H.
+    + apply re_class_inv in H. destruct H as [d [-> H]]. unfold class_in in H.
+      cbn [existsb citem_in] in H. rewrite xorb_false_l, orb_false_r in H.
+      unfold in_range in H. assert (d = c) by lia. subst. constructor.
+    + apply re_char_inv in H. subst. constructor. unfold class_in. cbn [existsb citem_in].
+      unfold in_range. lia.
+  - apply class_norm_sound.
+  - rewrite cat_app_sound. apply re_iff_cat; assumption.
+  - rewrite mk_alt_sound. apply re_iff_alt; assumption.
+  - apply re_iff_star. exact IHe.
+  - rewrite cat_app_sound, re_plus_cat_star. apply re_iff_cat; [exact IHe|]. apply re_iff_star. exact IHe.
+Qed.
+
+Lemma norm_elim : forall e w, re_matches (norm e) w -> re_matches e w.
+Proof. intros e w. apply norm_sound. Qed.
+Lemma norm_intro : forall e w, re_matches e w -> re_matches (norm e) w.
+Proof. intros e w. apply norm_sound. Qed.
+
+(* decidable equalities *)
+Lemma citem_eqb_eq : forall a b, citem_eqb a b = true -> a = b.
+Proof.
+  intros [l h|] [l' h'|] H; cbn [citem_eqb] in H; try discriminate; [|reflexivity].
+  apply andb_true_iff in H. destruct H as [H1 H2]. apply N.eqb_eq in H1, H2. subst. reflexivity.
+Qed.
+
+Lemma list_eqb_eq : forall A (eqb : A -> A -> bool), (forall x y, eqb x y = true -> x = y) ->
+  forall l1 l2, list_eqb eqb l1 l2 = true -> l1 = l2.
+Proof.
+  intros A eqb E. induction l1 as [|x t IH]; intros [|y t2] H; cbn [list_eqb] in H; try discriminate.
+  - reflexivity.
+  - apply andb_true_iff in H. destruct H as [H1 H2]. apply E in H1. apply IH in H2. subst. reflexivity.
+Qed.
+
+Lemma re_eqb_eq : forall a b, re_eqb a b = true -> a = b.
+Proof.
+  induction a; intros b H; destruct b; cbn [re_eqb] in H; try discriminate.
+  - reflexivity.
+  - apply N.eqb_eq in H. subst. reflexivity.
+  - apply andb_true_iff in H. destruct H as [H1 H2]. apply eqb_prop in H1.
+    apply (list_eqb_eq _ _ citem_eqb_eq) in H2. subst. reflexivity.
+  - apply andb_true_iff in H. destruct H as [H1 H2]. apply IHa1 in H1. apply IHa2 in H2. subst. reflexivity.
+  - apply andb_true_iff in H. destruct H as [H1 H2]. apply IHa1 in H1. apply IHa2 in H2. subst. reflexivity.
+  - apply IHa in H. subst. reflexivity.
+  - apply IHa in H. subst. reflexivity.
+Qed.
+
+Lemma rule_eqb_eq : forall K (keqb : K -> K -> bool), (forall x y, keqb x y = true -> x = y) ->
+  forall r1 r2 : rule K, rule_eqb keqb r1 r2 = true -> r1 = r2.
+Proof.
+  intros K keqb E [k1 e1] [k2 e2] H. unfold rule_eqb in H. cbn [fst snd] in H.
+  apply andb_true_iff in H. destruct H as [H1 H2]. apply re_eqb_eq in H2. subst.
+  destruct k1 as [x|], k2 as [y|]; cbn [opt_eqb] in H1; try discriminate; [|reflexivity].
+  apply E in H1. subst. reflexivity.
+Qed.
+
+Lemma incl_b_sound : forall A (eqb : A -> A -> bool), (forall x y, eqb x y = true -> x = y) ->
+  forall l1 l2, incl_b eqb l1 l2 = true -> forall x, In x l1 -> In x l2.
+Proof.
+  intros A eqb E l1 l2 H x Hx. unfold incl_b in H. rewrite forallb_forall in H.
+  specialize (H x Hx). apply existsb_exists in H. destruct H as [y [Hy Exy]].
+  apply E in Exy. subst. exact Hy.
+Qed.
+
+Lemma same_rules_sound : forall K (keqb : K -> K -> bool), (forall x y, keqb x y = true -> x = y) ->
+  forall l1 l2 : list (rule K), same_rules keqb l1 l2 = true ->
+  forall k e, In (k, e) l1 <-> In (k, e) l2.
+Proof.
+  intros K keqb E l1 l2 H k e. unfold same_rules in H. apply andb_true_iff in H. destruct H as [H1 H2].
+  split; apply incl_b_sound with (eqb := rule_eqb keqb); try assumption; apply rule_eqb_eq; exact E.
+Qed.
+
+Lemma tk_beq_eq : forall x y, tk_beq x y = true -> x = y.
+Proof. exact internal_tk_dec_bl. Qed.
+
+Lemma htk_eqb_eq : forall x y, htk_eqb x y = true -> x = y.
+Proof. intros [] [] H; try reflexivity; discriminate. Qed.
+
+(* ================================================================================================ *)
+(* C. the languages of the rules.  re_ident ... re_hname are readable spellings of the expressions, used
+   only to state what each canonical expression of LexSpec.v matches (canon_x = norm re_x is checked
+   below by computation on these fixed definitions, not on the generated strings).                   *)
 
 Definition re_ident : re :=
   RCat (RClass false [CRange 65 90; CRange 97 122; CRange 95 95])
@@ -255,37 +506,10 @@ Definition re_comment : re := RCat (RChar 35) (RStar (RClass true [CRange 10 10]
 Definition re_hname : re :=
   RPlus (RClass true [CRange 32 32; CRange 9 9; CRange 13 13; CRange 12 12; CRange 10 10]).
 
-(* what parse_re returns on every regular expression of the generated tables *)
-Lemma parse_re_gen_regexes :
-  map (fun p => (fst p, parse_re (snd p))) gen_regexes =
-  [ ("Ident", Some re_ident); ("DecInt", Some re_dec); ("HexInt", Some re_hex);
-    ("BinInt", Some re_bin); ("OctInt", Some re_oct); ("WS", Some re_ws);
-    ("Comment", Some re_comment) ]%string.
-Proof. vm_compute. reflexivity. Qed.
-
-Lemma parse_re_gen_header_regexes :
-  map (fun p => (fst p, parse_re (snd p))) gen_header_regexes =
-  [ ("SignalName", Some re_hname); ("WS", Some re_ws) ]%string.
-Proof. vm_compute. reflexivity. Qed.
-
+(* every regular expression of the generated tables is read by parse_re *)
 Lemma parse_re_all_some :
   forallb (fun p => match parse_re (snd p) with Some _ => true | None => false end)
           (gen_regexes ++ gen_header_regexes) = true.
-Proof. vm_compute. reflexivity. Qed.
-
-Lemma regex_rules_eq : regex_rules =
-  Some [ (Some TIdent, re_ident); (Some TDecInt, re_dec); (Some THexInt, re_hex);
-         (Some TBinInt, re_bin); (Some TOctInt, re_oct); (None, re_ws); (None, re_comment) ].
-Proof. vm_compute. reflexivity. Qed.
-
-Lemma lex_rules_eq : lex_rules =
-  [ (Some TIdent, re_ident); (Some TDecInt, re_dec); (Some THexInt, re_hex);
-    (Some TBinInt, re_bin); (Some TOctInt, re_oct); (None, re_ws); (None, re_comment) ]
-  ++ keyword_rules ++ punct_rules.
-Proof. unfold lex_rules. rewrite regex_rules_eq. reflexivity. Qed.
-
-Lemma hlex_rules_eq : hlex_rules =
-  [ (Some HName, re_hname); (None, re_ws); (Some HEol, lit_re [10]) ].
 Proof. vm_compute. reflexivity. Qed.
 
 (* the classes of the parsed expressions are the classes the scanner tests *)
@@ -326,6 +550,161 @@ Proof. apply plus_lang; try reflexivity; class_eq. Qed.
 
 Lemma hname_lang : forall w, re_matches re_hname w <-> w <> [] /\ allp is_name_char w.
 Proof. apply plus_lang; try reflexivity; class_eq. Qed.
+
+(* ================================================================================================ *)
+(* C2. the tables: same rules as the explicit canonical tables, in whatever order and spelling        *)
+
+(* the canonical expressions are the normal forms of the readable ones *)
+Definition readable_regex_rules : list (rule tk) :=
+  [ (Some TIdent, re_ident); (Some TDecInt, re_dec); (Some THexInt, re_hex);
+    (Some TBinInt, re_bin); (Some TOctInt, re_oct); (None, re_ws); (None, re_comment) ].
+
+Definition norm_rule {K} (r : rule K) : rule K := (fst r, norm (snd r)).
+
+Lemma canonical_regex_rules_norm : canonical_regex_rules = map norm_rule readable_regex_rules.
+Proof. reflexivity. Qed.
+
+Lemma canon_hname_norm : canon_hname = norm re_hname.
+Proof. reflexivity. Qed.
+Lemma canon_ws_norm : canon_ws = norm re_ws.
+Proof. reflexivity. Qed.
+
+(* the regex part of the statement table *)
+Lemma regex_rules_canon : forall k e,
+  In (k, e) (or_poison (Some TError) regex_rules) <-> In (k, e) canonical_regex_rules.
+Proof. apply (same_rules_sound _ tk_beq tk_beq_eq). vm_compute. reflexivity. Qed.
+
+(* the whole statement table *)
+Theorem lex_rules_canon : forall k e, In (k, e) lex_rules <-> In (k, e) canonical_lex_rules.
+Proof. apply (same_rules_sound _ tk_beq tk_beq_eq). vm_compute. reflexivity. Qed.
+
+(* the header table *)
+Theorem hlex_rules_canon : forall k e, In (k, e) hlex_rules <-> In (k, e) canonical_hlex_rules.
+Proof. apply (same_rules_sound _ htk_eqb htk_eqb_eq). vm_compute. reflexivity. Qed.
+
+(* the canonical tables are in normal form *)
+Lemma canonical_rules_normal :
+  forallb (fun r => re_eqb (norm (snd r)) (snd r)) canonical_regex_rules = true /\
+  forallb (fun r => re_eqb (norm (snd r)) (snd r)) [(Some HName, canon_hname)] = true.
+Proof. split; vm_compute; reflexivity. Qed.
+
+(* ---- back to the expressions exactly as parse_re returns them *)
+Lemma rule_matches_app : forall K (l1 l2 : list (rule K)) k w,
+  rule_matches (l1 ++ l2) k w <-> rule_matches l1 k w \/ rule_matches l2 k w.
+Proof.
+  intros K l1 l2 k w. unfold rule_matches. split.
+  - intros [e [Hin Hm]]. apply in_app_or in Hin. destruct Hin; [left | right]; eauto.
+  - intros [[e [Hin Hm]]|[e [Hin Hm]]]; exists e; (split; [|exact Hm]); apply in_or_app; auto.
+Qed.
+
+Lemma rule_matches_norm_map : forall K (l : list (rule K)) k w,
+  rule_matches (map norm_rule l) k w <-> rule_matches l k w.
+Proof.
+  intros K l k w. unfold rule_matches. split.
+  - intros [e [Hin Hm]]. apply in_map_iff in Hin. destruct Hin as [[k0 e0] [E Hin]].
+    unfold norm_rule in E. cbn [fst snd] in E. inversion E; subst. apply norm_elim in Hm. eauto.
+  - intros [e [Hin Hm]]. exists (norm e). split; [|apply norm_intro; exact Hm].
+    apply (in_map norm_rule) in Hin. exact Hin.
+Qed.
+
+Lemma regex_rules_of_norm : forall K (kind : string -> option (option K)) l,
+  regex_rules_of norm kind l = option_map (map norm_rule) (regex_rules_of raw kind l).
+Proof.
+  intros K kind. induction l as [|[n s] t IH]; [reflexivity|]. cbn [regex_rules_of].
+  rewrite IH. destruct (kind n); [|reflexivity]. destruct (parse_re s); [|reflexivity].
+  destruct (regex_rules_of raw kind t); reflexivity.
+Qed.
+
+Lemma or_poison_norm : forall K (bad : option K) o k w,
+  rule_matches (or_poison bad (option_map (map norm_rule) o)) k w <-> rule_matches (or_poison bad o) k w.
+Proof.
+  intros K bad o k w. destruct o as [l|]; cbn [option_map or_poison]; [|reflexivity].
+  apply rule_matches_norm_map.
+Qed.
+
+(* normalising the expressions does not change what the table matches *)
+Theorem lex_rules_raw : forall k w, rule_matches lex_rules k w <-> rule_matches raw_lex_rules k w.
+Proof.
+  intros k w. unfold lex_rules, raw_lex_rules, regex_rules, raw_regex_rules.
+  rewrite !rule_matches_app, regex_rules_of_norm, or_poison_norm. reflexivity.
+Qed.
+
+Theorem hlex_rules_raw : forall k w, rule_matches hlex_rules k w <-> rule_matches raw_hlex_rules k w.
+Proof.
+  intros k w. unfold hlex_rules, raw_hlex_rules, hlex_regex_rules, raw_hlex_regex_rules.
+  rewrite !rule_matches_app, regex_rules_of_norm, or_poison_norm. reflexivity.
+Qed.
+
+(* ... and entry by entry: the rule of a regex variant of the source is in the raw table as parsed, and
+   in the table of the theorems in normal form *)
+Lemma regex_rules_of_in : forall K nf (kind : string -> option (option K)) l rs n s k e,
+  regex_rules_of nf kind l = Some rs -> In (n, s) l -> kind n = Some k -> parse_re s = Some e ->
+  In (k, nf e) rs.
+Proof.
+  intros K nf kind. induction l as [|[n0 s0] t IH]; intros rs n s k e H Hin Hk Hp; [contradiction|].
+  cbn [regex_rules_of] in H.
+  destruct (kind n0) as [k0|] eqn:K0; [|discriminate]. destruct (parse_re s0) as [e0|] eqn:P0; [|discriminate].
+  destruct (regex_rules_of nf kind t) as [rs'|] eqn:R; [|discriminate]. inversion H; subst.
+  destruct Hin as [Hin|Hin].
+  - inversion Hin; subst. left. congruence.
+  - right. eapply IH; eauto.
+Qed.
+
+Lemma regex_rules_some : (exists l, regex_rules = Some l) /\ (exists l, raw_regex_rules = Some l).
+Proof. split; vm_compute; eexists; reflexivity. Qed.
+
+Theorem gen_regex_rule : forall n s k e,
+  In (n, s) gen_regexes -> regex_kind n = Some k -> parse_re s = Some e ->
+  In (k, e) raw_lex_rules /\ In (k, norm e) lex_rules /\
+  (forall w, re_matches e w -> rule_matches lex_rules k w).
+Proof.
+  intros n s k e Hin Hk Hp. destruct regex_rules_some as [[l1 E1] [l2 E2]].
+  assert (A : In (k, norm e) lex_rules).
+  { unfold lex_rules. apply in_or_app. left. rewrite E1. cbn [or_poison].
+    eapply (regex_rules_of_in _ norm); eauto. }
+  split; [|split; [exact A|]].
+  - unfold raw_lex_rules. apply in_or_app. left. rewrite E2. cbn [or_poison].
+    apply (regex_rules_of_in _ raw regex_kind gen_regexes l2 n s k e); assumption.
+  - intros w Hm. exists (norm e). split; [exact A | apply norm_intro; exact Hm].
+Qed.
+
+(* ---- re-spellings that the normal form absorbs, and one that it must not *)
+Example respell_class :
+  option_map norm (parse_re "[a-fA-F0-9]") = option_map norm (parse_re "[0-9a-fA-F]").
+Proof. vm_compute. reflexivity. Qed.
+Example respell_hex :
+  option_map norm (parse_re "0[xX][a-fA-F0-9]+") = option_map norm (parse_re "0[xX][0-9a-fA-F]+").
+Proof. vm_compute. reflexivity. Qed.
+Example respell_ident :
+  option_map norm (parse_re "[A-Za-z_][A-Za-z_\d]*") = option_map norm (parse_re "[A-Za-z_]([A-Za-z]|_|\d)*").
+Proof. vm_compute. reflexivity. Qed.
+Example respell_bin :
+  option_map norm (parse_re "0[bB][01][01]*") = option_map norm (parse_re "0[bB][01]+").
+Proof. vm_compute. reflexivity. Qed.
+Example respell_ws :
+  option_map norm (parse_re "[ \t\f\r]+") = option_map norm (parse_re "[ \t\r\f]+").
+Proof. vm_compute. reflexivity. Qed.
+Example respell_hname :
+  option_map norm (parse_re "[^\n\f\r\t ][^ \t\r\f\n]*") = option_map norm (parse_re "[^ \t\r\f\n]+").
+Proof. vm_compute. reflexivity. Qed.
+(* \d is the Unicode class Nd, not [0-9] *)
+Example respell_dec_not :
+  option_map norm (parse_re "[1-9]\d*") <> option_map norm (parse_re "[1-9][0-9]*").
+Proof. vm_compute. discriminate. Qed.
+(* ... and the difference is semantic: U+0661 (ARABIC-INDIC DIGIT ONE) after a 1 *)
+Example respell_dec_not_sem : forall e1 e2,
+  parse_re "[1-9]\d*" = Some e1 -> parse_re "[1-9][0-9]*" = Some e2 ->
+  re_matches e1 [49; 1633] /\ ~ re_matches e2 [49; 1633].
+Proof.
+  intros e1 e2 H1 H2. vm_compute in H1, H2. inversion H1; inversion H2; subst. clear H1 H2. split.
+  - apply (cat_star_char (RClass false [CRange 49 57]) (RClass false [CNd]) eq_refl eq_refl).
+    exists 49, [1633]. split; [reflexivity|]. split; [reflexivity|].
+    apply allp_cons. split; [vm_compute; reflexivity | apply allp_nil].
+  - intro H.
+    apply (cat_star_char (RClass false [CRange 49 57]) (RClass false [CRange 48 57]) eq_refl eq_refl) in H.
+    destruct H as [c [u [E [_ Hu]]]]. inversion E; subst. apply allp_cons in Hu. destruct Hu as [Hu _].
+    vm_compute in Hu. discriminate.
+Qed.
 
 (* ================================================================================================ *)
 (* D. the scanner, by the class of the first character                                                *)
@@ -609,8 +988,16 @@ Proof.
   contradiction.
 Qed.
 
-Lemma keywords_gen : keywords = gen_keywords.
-Proof. reflexivity. Qed.
+(* the scanner's own keyword table is included in the generated one (whatever the order) *)
+Definition kw_eqb (a b : name * tk) : bool := name_eqb (fst a) (fst b) && tk_beq (snd a) (snd b).
+
+Lemma keywords_gen : forall p, In p keywords -> In p gen_keywords.
+Proof.
+  apply (incl_b_sound _ kw_eqb); [|vm_compute; reflexivity].
+  intros [n1 k1] [n2 k2] H. unfold kw_eqb in H. cbn [fst snd] in H.
+  apply andb_true_iff in H. destruct H as [H1 H2]. apply name_eqb_eq in H1. apply tk_beq_eq in H2.
+  subst. reflexivity.
+Qed.
 
 Lemma keyword_or_ident_cases : forall w,
   keyword_or_ident w = TIdent \/ In (w, keyword_or_ident w) gen_keywords.
@@ -618,7 +1005,7 @@ Proof.
   intro w. unfold keyword_or_ident.
   destruct (find (fun kw => name_eqb (fst kw) w) keywords) as [[n k]|] eqn:F; [|left; reflexivity].
   right. apply find_some in F. destruct F as [Hin He]. cbn [fst] in He.
-  apply name_eqb_eq in He. subst n. rewrite <- keywords_gen. exact Hin.
+  apply name_eqb_eq in He. subst n. apply keywords_gen. exact Hin.
 Qed.
 
 Lemma punct_in : forall s kk, In (s, kk) gen_punct ->
@@ -665,9 +1052,12 @@ Definition flat (k : option tk) (w : text) : Prop :=
 
 Lemma rule_matches_flat : forall k w, rule_matches lex_rules k w <-> flat k w.
 Proof.
-  intros k w. unfold rule_matches, flat. rewrite lex_rules_eq. split.
+  intros k w. unfold rule_matches, flat, lex_rules. split.
   - intros [e [Hin Hm]]. apply in_app_or in Hin. destruct Hin as [Hin|Hin].
-    + cbn [In] in Hin.
+    + apply (proj1 (regex_rules_canon _ _)) in Hin. rewrite canonical_regex_rules_norm in Hin.
+      apply in_map_iff in Hin. destruct Hin as [[k0 e0] [E Hin]]. unfold norm_rule in E.
+      cbn [fst snd] in E. inversion E; subst. apply norm_elim in Hm. clear E.
+      unfold readable_regex_rules in Hin. cbn [In] in Hin.
       repeat (destruct Hin as [Hin|Hin]; [inversion Hin; subst; clear Hin; tauto|]). contradiction.
     + apply in_app_or in Hin. destruct Hin as [Hin|Hin].
       * unfold keyword_rules in Hin. apply in_map_iff in Hin. destruct Hin as [[n kk] [E Hin]].
@@ -678,7 +1068,13 @@ Proof.
         do 8 right. exists s, kk. auto.
   - intros H.
     repeat (destruct H as [H|H];
-      [ destruct H as [-> Hm]; eexists; (split; [|exact Hm]); apply in_or_app; left; pick_in |]).
+      [ destruct H as [-> Hm];
+        match type of Hm with re_matches ?e0 _ =>
+          exists (norm e0); split; [|apply norm_intro; exact Hm];
+          apply in_or_app; left; apply (proj2 (regex_rules_canon _ _)); rewrite canonical_regex_rules_norm;
+          match goal with |- In (?k0, _) _ => apply (in_map norm_rule readable_regex_rules (k0, e0)) end;
+          unfold readable_regex_rules; pick_in
+        end |]).
     destruct H as [H|H].
     + destruct H as [kk [-> Hin]]. exists (lit_re w). split; [|apply lit_re_matches; reflexivity].
       apply in_or_app. right. apply in_or_app. left. unfold keyword_rules.
@@ -1082,17 +1478,36 @@ Definition hflat (k : option htk) (w : text) : Prop :=
   (k = None /\ w <> [] /\ allp is_ws w) \/
   (k = Some HEol /\ w = [10]).
 
+Lemma hcanon_flat : forall k e w, In (k, e) canonical_hlex_rules -> re_matches e w -> hflat k w.
+Proof.
+  intros k e w Hin Hm. unfold canonical_hlex_rules in Hin. cbn [In] in Hin. unfold hflat.
+  destruct Hin as [Hin|[Hin|[Hin|[]]]]; inversion Hin; subst; clear Hin.
+  - left. split; [reflexivity|]. apply hname_lang. apply norm_elim. exact Hm.
+  - right. left. split; [reflexivity|]. apply ws_lang. apply norm_elim. exact Hm.
+  - right. right. split; [reflexivity|]. apply lit_re_matches. exact Hm.
+Qed.
+
 Lemma hrule_matches_flat : forall k w, rule_matches hlex_rules k w <-> hflat k w.
 Proof.
-  intros k w. unfold rule_matches, hflat. rewrite hlex_rules_eq. split.
-  - intros [e [Hin Hm]]. cbn [In] in Hin. destruct Hin as [Hin|[Hin|[Hin|[]]]]; inversion Hin; subst.
-    + left. split; [reflexivity|]. apply hname_lang. exact Hm.
-    + right. left. split; [reflexivity|]. apply ws_lang. exact Hm.
-    + right. right. split; [reflexivity|]. apply lit_re_matches. exact Hm.
-  - intros [[-> H]|[[-> H]|[-> ->]]].
-    + exists re_hname. split; [pick_in | apply hname_lang; exact H].
-    + exists re_ws. split; [pick_in | apply ws_lang; exact H].
-    + exists (lit_re [10]). split; [pick_in | apply lit_re_matches; reflexivity].
+  intros k w. unfold rule_matches. split.
+  - intros [e [Hin Hm]]. apply (proj1 (hlex_rules_canon _ _)) in Hin. eapply hcanon_flat; eassumption.
+  - unfold hflat. intros [[-> H]|[[-> H]|[-> ->]]].
+    + exists canon_hname. split; [apply (proj2 (hlex_rules_canon _ _)); unfold canonical_hlex_rules; pick_in|].
+      rewrite canon_hname_norm. apply norm_intro. apply hname_lang. exact H.
+    + exists canon_ws. split; [apply (proj2 (hlex_rules_canon _ _)); unfold canonical_hlex_rules; pick_in|].
+      rewrite canon_ws_norm. apply norm_intro. apply ws_lang. exact H.
+    + exists (lit_re [10]). split; [apply (proj2 (hlex_rules_canon _ _)); unfold canonical_hlex_rules; pick_in|].
+      apply lit_re_matches. reflexivity.
+Qed.
+
+Lemma hflat_fun : forall k1 k2 w, hflat k1 w -> hflat k2 w -> k1 = k2.
+Proof.
+  intros k1 k2 w H1 H2. unfold hflat in *.
+  destruct H1 as [[-> [N1 A1]]|[[-> [N1 A1]]|[-> E1]]]; destruct H2 as [[-> [N2 A2]]|[[-> [N2 A2]]|[-> E2]]];
+    try reflexivity; exfalso; subst;
+    try (destruct w as [|c w]; [congruence|]);
+    repeat match goal with H : allp _ (_ :: _) |- _ => apply allp_cons in H; destruct H end;
+    unfold is_name_char in *; unfold_tests; lia.
 Qed.
 
 (* no two header rules match the same text (so the header lexer needs no priorities) *)
@@ -1100,20 +1515,11 @@ Theorem hlex_rules_disjoint : forall k1 e1 k2 e2 w,
   In (k1, e1) hlex_rules -> In (k2, e2) hlex_rules -> re_matches e1 w -> re_matches e2 w ->
   (k1, e1) = (k2, e2).
 Proof.
-  intros k1 e1 k2 e2 w H1 H2 M1 M2. rewrite hlex_rules_eq in H1, H2. cbn [In] in H1, H2.
+  intros k1 e1 k2 e2 w H1 H2 M1 M2. apply (proj1 (hlex_rules_canon _ _)) in H1. apply (proj1 (hlex_rules_canon _ _)) in H2.
+  pose proof (hflat_fun _ _ _ (hcanon_flat _ _ _ H1 M1) (hcanon_flat _ _ _ H2 M2)) as E.
+  unfold canonical_hlex_rules in H1, H2. cbn [In] in H1, H2.
   destruct H1 as [H1|[H1|[H1|[]]]]; destruct H2 as [H2|[H2|[H2|[]]]];
-    inversion H1; inversion H2; subst; try reflexivity; exfalso;
-    repeat match goal with
-    | H : re_matches re_hname _ |- _ => apply hname_lang in H; destruct H as [? H]
-    | H : re_matches re_ws _ |- _ => apply ws_lang in H; destruct H as [? H]
-    | H : re_matches (lit_re _) _ |- _ => apply lit_re_matches in H; inversion H; subst
-    | H : re_matches (RCat (RChar 10) REps) _ |- _ =>
-      change (RCat (RChar 10) REps) with (lit_re [10]) in H; apply lit_re_matches in H; inversion H; subst
-    end;
-    try (destruct w as [|c w]; [congruence|]);
-    repeat match goal with H : allp _ (_ :: _) |- _ => apply allp_cons in H; destruct H end;
-    try discriminate;
-    unfold is_name_char in *; unfold_tests; try lia.
+    inversion H1; inversion H2; subst; try reflexivity; discriminate.
 Qed.
 
 Corollary hlex_rules_disjoint_kinds : forall k1 k2 w,
@@ -1236,10 +1642,22 @@ Proof. intros pos s ts H. unfold lex_body in H. eapply lex_body_from_matches. ex
 Check span_while_spec.
 Check span_while_max.
 Check star_char.
-Check parse_re_gen_regexes.
-Check parse_re_gen_header_regexes.
-Check lex_rules_eq.
-Check hlex_rules_eq.
+Check norm_sound.
+Check parse_re_all_some.
+Check lex_rules_canon.
+Check hlex_rules_canon.
+Check canonical_rules_normal.
+Check lex_rules_raw.
+Check hlex_rules_raw.
+Check gen_regex_rule.
+Check respell_class.
+Check respell_hex.
+Check respell_ident.
+Check respell_bin.
+Check respell_ws.
+Check respell_hname.
+Check respell_dec_not.
+Check respell_dec_not_sem.
 Check lex_one_partition.
 Check lex_one_sound.
 Check lex_one_longest.
@@ -1260,10 +1678,22 @@ Check lex_body_tokens_match.
 Print Assumptions span_while_spec.
 Print Assumptions span_while_max.
 Print Assumptions star_char.
-Print Assumptions parse_re_gen_regexes.
-Print Assumptions parse_re_gen_header_regexes.
-Print Assumptions lex_rules_eq.
-Print Assumptions hlex_rules_eq.
+Print Assumptions norm_sound.
+Print Assumptions parse_re_all_some.
+Print Assumptions lex_rules_canon.
+Print Assumptions hlex_rules_canon.
+Print Assumptions canonical_rules_normal.
+Print Assumptions lex_rules_raw.
+Print Assumptions hlex_rules_raw.
+Print Assumptions gen_regex_rule.
+Print Assumptions respell_class.
+Print Assumptions respell_hex.
+Print Assumptions respell_ident.
+Print Assumptions respell_bin.
+Print Assumptions respell_ws.
+Print Assumptions respell_hname.
+Print Assumptions respell_dec_not.
+Print Assumptions respell_dec_not_sem.
 Print Assumptions lex_one_partition.
 Print Assumptions lex_one_sound.
 Print Assumptions lex_one_longest.
